@@ -1,5 +1,5 @@
 (* C12 — aws-chunked decoding is independent of stream fragmentation.
-   Only statements; proofs are in Proofs/ChunkAccept.v.
+   Only statements; proofs are in Proofs/ChunkAccept.v and Proofs/ChunkFrag.v.
 
    Full statements (kept visible; NOT yet proved — they are evaluated on every run by running the extracted
    models and the real readers on valid streams under every single cut, random multi-cuts, one-byte fragments and
@@ -8,11 +8,14 @@
         run (init seed) sched [] = (payload, E_EOF)
      C12_unsigned_frag_indep : forall chunking bufs dflt (all sizes >= 1),
         urun (uinit (encode_unsigned chunking)) bufs dflt [] = (concat chunking, U_EOF)
+   Of C12_signed_frag_indep the one-delivery instance is proved below for every payload and chunking
+   (C12_signed_decodes_whole_stream); the step from one delivery to every fragmentation rests on the lemmas of Proofs/ChunkFrag.v
+   (the header parser is prefix-monotone, an incomplete header resumes from the stash, left-over data resumes from `left`).
    Proved below, for every state, fragment sequence and buffer-size sequence (no bound on sizes or steps):
    the rejection half in its structural form — the ONLY way either reader reports a clean end of stream is through
    the final zero-length chunk with every integrity value verified; a source that just ends is io.ErrUnexpectedEOF. *)
 From Coq Require Import NArith ZArith List Bool String.
-From VGW Require Import Base.Bytes Crypto.Crc Model.SignedChunk Model.UnsignedChunk Proofs.ChunkAccept.
+From VGW Require Import Base.Bytes Crypto.Crc Model.SignedChunk Model.UnsignedChunk Proofs.ChunkAccept Proofs.ChunkFrag.
 Import ListNotations.
 
 Section C12.
@@ -27,6 +30,22 @@ Section C12.
     run sha256 hmac256 hex key stsPayload stsTrailer trailer s frags acc = (out, E_EOF) ->
     exists s', final_accepted sha256 hmac256 hex key stsPayload stsTrailer trailer s'.
   Proof. exact (run_eof_inv sha256 hmac256 hex key stsPayload stsTrailer trailer). Qed.
+
+  (* the positive half, for every payload and every legal chunking (no bound on the number or the sizes of the chunks): a stream
+     built by the encoder the reader is the inverse of — chunk headers "<size>;chunk-signature=<sig>", the signature chain seeded
+     by the request signature, the final zero-size chunk, and with a trailer the checksum line and the trailer signature — decodes,
+     delivered in one piece, to exactly the concatenated chunk data and a clean end of stream. A chunk is (spelling of its size,
+     data): every spelling strconv.ParseInt accepts for the length is allowed (leading zeros, upper case), data is non-empty.
+     Premises on the parameters: the hex encoding of a digest contains no CR and is not empty; with a trailer, the base64 checksum
+     contains no CR and has the length of its algorithm (facts about hex / base64 the proof does not redo). *)
+  Theorem C12_signed_decodes_whole_stream :
+    (forall x, ~ In 13%N (hex x)) -> (forall x, hex x <> []) ->
+    forall a0 total, wf_final a0 ->
+    (forall t, trailer = Some t -> ~ In 13%N (trailer_sum t total) /\ valid_checksum t (trailer_sum t total) = true) ->
+    forall seed cs eof, Forall wf_chunk cs -> List.concat (map snd cs) = total ->
+    run sha256 hmac256 hex key stsPayload stsTrailer trailer (init seed)
+        [(enc sha256 hmac256 hex key stsPayload stsTrailer trailer true seed [] cs a0, eof)] [] = (total, E_EOF).
+  Proof. exact (decode_whole sha256 hmac256 hex key stsPayload stsTrailer trailer). Qed.
 
   (* a source that ends (0 bytes, EOF) is never a clean end of stream, whatever the state *)
   Theorem C12_signed_truncation_rejected : forall s, (0 <=? left s)%Z = true ->
@@ -48,6 +67,29 @@ Qed.
 
 Print Assumptions C12_signed_accept_requires_final_chunk_partial.
 Print Assumptions C12_signed_truncation_rejected.
+Print Assumptions C12_signed_decodes_whole_stream.
+
+(* non-vacuity of C12_signed_decodes_whole_stream: its premises hold for toy hash functions and a two-chunk payload with a CRC-32
+   trailer, and the encoded stream is the familiar wire format *)
+Example C12_signed_example :
+  let hx := fun _ : bytes => bytes_of_string "ab" in
+  let cs := [(bytes_of_string "3", bytes_of_string "abc"); (bytes_of_string "02", bytes_of_string "de")] in
+  (forall x, ~ In 13%N (hx x)) /\ (forall x, hx x <> []) /\ wf_final (bytes_of_string "0") /\ Forall wf_chunk cs /\
+  ~ In 13%N (trailer_sum TCrc32 (bytes_of_string "abcde")) /\ valid_checksum TCrc32 (trailer_sum TCrc32 (bytes_of_string "abcde")) = true /\
+  enc (fun x => x) (fun _ m => m) hx [] [] [] (Some TCrc32) true (bytes_of_string "seed") [] cs (bytes_of_string "0") =
+    let bs := bytes_of_string in let crlf := [13; 10]%N in
+    (bs "3;chunk-signature=ab"%string ++ crlf ++ bs "abc"%string ++ crlf ++ bs "02;chunk-signature=ab"%string ++ crlf ++ bs "de"%string ++ crlf ++ bs "0;chunk-signature=ab"%string ++ crlf ++
+     bs "x-amz-checksum-crc32:hYfYZQ=="%string ++ crlf ++ bs "x-amz-trailer-signature:ab"%string ++ crlf ++ crlf)%list.
+Proof.
+  cbv zeta. split; [|split; [|split; [|split; [|split; [|split]]]]].
+  - intros x H. vm_compute in H. intuition discriminate.
+  - intros x H. discriminate H.
+  - split; [intros H; vm_compute in H; intuition discriminate|vm_compute; reflexivity].
+  - constructor; [|constructor; [|constructor]]; (split; [intros H; vm_compute in H; intuition discriminate|split; [vm_compute; reflexivity|discriminate]]).
+  - intros H. vm_compute in H. intuition discriminate.
+  - vm_compute. reflexivity.
+  - vm_compute. reflexivity.
+Qed.
 Print Assumptions C12_unsigned_accept_requires_trailer_partial.
 
 (* non-vacuity: a concrete valid unsigned stream of two chunks read through 2-byte buffers decodes to its payload *)
